@@ -1,4 +1,4 @@
 SPECIFICATION Spec
-CONSTANT Ops <- OpsNone
+CONSTANT Ops <- OpsSet
 INVARIANTS SelectionAllowed SelectionTight HullContainsRoot ValueFits Emit
 CHECK_DEADLOCK FALSE
